@@ -531,7 +531,9 @@ class Interp(object):
                 if isinstance(modv, Opaque):
                     v = Opaque('%s.%s' % (st.module, a.name))
                 else:
-                    self.raise_py('ImportError', a.name)
+                    # a name the MODEL of an external library lacks says nothing about the
+                    # library: undecided, never an ImportError of the code under verification
+                    raise Unsupported("%s.%s is not modelled" % (st.module, a.name))
             self.bind(a.asname or a.name, v, env)
 
     def st_FunctionDef(self, st, env):
